@@ -543,7 +543,7 @@ class Context:
         def pow_fn(*args):
             x = to_number(args[0]) if args else float("nan")
             y = to_number(args[1]) if len(args) > 1 else float("nan")
-            return math.pow(x, y)
+            return VM._pow(None, x, y)  # same as the ** operator
 
         def sqrt_fn(*args):
             x = to_number(args[0]) if args else float("nan")
